@@ -14,16 +14,16 @@ P = {
    text="Every validation context is built in validationContext() over sp.IDPCertificateStore with ctx.Clock = sp.Clock, every Validate receiver comes from it, and at all four verify sites the only non-fatal error is ErrMissingSignature at a root site, whose continuation leaves the trust flag constant false. The trust store is read-only for the library (no store / append / mutating call reaches sp.IDPCertificateStore or what it hands out).",
    note="Not decided: x509 equality / signature mathematics and verifyCertificate's behaviour (dependency; shape-audited in thorough). " + TB, ref="DESIGN.md §3 C02"),
  "C03": dict(tech="required-fact table over all SSA paths (guard inventory) with loop generic-iteration",
-   text="Every accepting path of Validate carries each of the 17 profile checks plus the expiry comparison; per-assertion checks hold at every completed iteration of a loop over the whole Assertions slice; each rejection returns the typed error naming the element; Validate(obj)==nil is the last event on every object ValidateEncodedResponse returns; each assertion Validate inspects was decoded into its own fresh target. The configuration the checks compare against (IdP issuer, ACS URL, clock, audience) is written by no library function.",
+   text="Every accepting path of Validate carries each of the 17 profile checks plus the expiry comparison; per-assertion checks hold at every completed iteration of a loop over the whole Assertions slice; each rejection returns the typed error naming the element; Validate(obj)==nil is the last event on every object ValidateEncodedResponse returns; each assertion Validate inspects was decoded into its own fresh target. The configuration the checks compare against (IdP issuer, ACS URL, clock, audience) is written by no library function. The verifying traversal visits every element and rejects what is not a direct child (shared with C01-R4), so every assertion reaches the checks.",
    note="Not decided: that encoding/xml fills the structs faithfully (C08 / dependency). " + TB, ref="DESIGN.md §3 C03"),
  "C04": dict(tech="typestate of trust-flag fields: who-may-write scan, path-sensitive flag<=>provenance, struct-tag table",
    text="The five trust indicators are written only by the validators; on every accepting path the returned flag is a compile-time constant that is true exactly when the object was decoded from the element returned by the successful check of the parsed root with validation on; xml:\"-\" keeps input from setting them; the summary flag mirrors the Response flag.",
    note="Field-for-field equality with the signed element follows from C01 provenance + the Validate contract, not re-proved here. " + TB, ref="DESIGN.md §3 C04"),
  "C05": dict(tech="comparison truth tables over the 3 orderings of (clock, bound), extracted from path facts",
-   text="For each time decision the guard is evaluated over now<b, now=b, now>b on all paths: expiry rejects on = and >, InvalidTime from NotBefore on < only and from NotOnOrAfter on = and >; operands are sp.Clock.Now() and time.Parse(RFC3339, field) unmodified; missing/unparsable bounds are typed errors; no wall-clock call exists in library scope (positive control). Every verified assertion is decoded into a fresh object, so each assertion's bounds are its own. Every accepting path of ValidateEncodedResponse ends with sp.Validate(returned object) == nil on this call (no acceptance from an earlier call's verdict).",
+   text="For each time decision the guard is evaluated over now<b, now=b, now>b on all paths: expiry rejects on = and >, InvalidTime from NotBefore on < only and from NotOnOrAfter on = and >; operands are sp.Clock.Now() and time.Parse(RFC3339, field) unmodified; missing/unparsable bounds are typed errors; no wall-clock call exists in library scope (positive control). Every verified assertion is decoded into a fresh object, so each assertion's bounds are its own. Every accepting path of ValidateEncodedResponse ends with sp.Validate(returned object) == nil on this call (no acceptance from an earlier call's verdict). RetrieveAssertionInfo hands back exactly the WarningInfo VerifyAssertionConditions returned without error.",
    note="Not decided: time.Parse's own handling of offsets and fractions (std contract). " + TB, ref="DESIGN.md §3 C05"),
  "C06": dict(tech="loop-to-quantifier extraction on SSA paths; exact-comparison and accumulate-loop rules",
-   text="NotInAudience is stored exactly on generic outer iterations whose inner loop over that restriction's Audiences is exhausted without an exact == match, never with zero restrictions; OneTimeUse and ProxyRestriction mirror presence, Count and the audience list in order. Every verified assertion is decoded into a fresh object; no allocation while computing the warnings is sized by a signed value. A store to NotInAudience inside the loop over the restrictions stores true or the loop-carried value (restrictions are conjunctive: a later or matching restriction never clears the warning).",
+   text="NotInAudience is stored exactly on generic outer iterations whose inner loop over that restriction's Audiences is exhausted without an exact == match, never with zero restrictions; OneTimeUse and ProxyRestriction mirror presence, Count and the audience list in order. Every verified assertion is decoded into a fresh object; no allocation while computing the warnings is sized by a signed value. A store to NotInAudience inside the loop over the restrictions stores true or the loop-carried value (restrictions are conjunctive: a later or matching restriction never clears the warning). RetrieveAssertionInfo accepts only when VerifyAssertionConditions returned no error (no partial warnings).",
    note="String equality semantics are Go's; nothing else assumed beyond the trusted base. " + TB, ref="DESIGN.md §3 C06"),
  "C07": dict(tech="value-flow and event-order analysis on SSA paths; truth tables for the certificate window",
    text="Decrypted plaintext only re-enters the tree (parseResponse -> Root -> AddChild on the processed element); decryption precedes the verifying traversal over the same root; the EncryptedAssertion handler demands a direct child and the whole-tree traversal runs before every successful return; every path to an RSA unwrap has the recipient-certificate guard on the decoded EncryptedKey struct; getDecryptCert validates the returned certificate's leaf with the closed window on the SP clock on every accepting path and returns a certificate built in that call (no memoised value). The xmlenc fields the decrypting code reads decode from the element paths it assumes, matched by local name without namespace restriction (schema table).",
@@ -35,7 +35,7 @@ P = {
    text="Both logout validators carry Version, Destination-vs-SLO-URL, Issuer and (responses) Success checks with typed errors on every accepting path; fatal verification errors; decode from the verified root (or raw root on the missing-signature continuation) with flag <=> verified root and false under skip; root structs have distinct tagged XMLNames; the two validators agree path class by path class.",
    note="As C01/C02. " + TB, ref="DESIGN.md §3 C10"),
  "C11": dict(tech="table agreement (advertised vs handled constants), key-source decision tables over all valid configurations, expression-shape and rejection-whitelist rules",
-   text="STRUCTURAL PART ONLY: every advertised / exported algorithm constant has a decrypting case; the key that decrypts and the certificate reported/published pick the same source in all 12 valid field/setter configurations; nonce/IV split and padding removal have the required shape; no rejection outside the safety whitelist on the symmetric layer; the symmetric key is the whole RSA plaintext of base64(CipherValue) obtained with the primitive the transport identifier names; every advertised algorithm's cipher family matches its identifier. decryptAssertions runs unconditionally on every accepting validating path (shared with C07-R2).",
+   text="STRUCTURAL PART ONLY: every advertised / exported algorithm constant has a decrypting case; the key that decrypts and the certificate reported/published pick the same source in all 12 valid field/setter configurations; nonce/IV split and padding removal have the required shape; no rejection outside the safety whitelist on the symmetric layer; the symmetric key is the whole RSA plaintext of base64(CipherValue) obtained with the primitive the transport identifier names; every advertised algorithm's cipher family matches its identifier. decryptAssertions runs unconditionally on every accepting validating path (shared with C07-R2). A refused SetSPKeyStore / SetSPSigningKeyStore call changes nothing (shared setter contract).",
    note="Explicitly NOT decided: byte-exact round trip for every plaintext length and algorithm pairing, OAEP/MGF semantics (cryptographic run-time behaviour). The checked clauses are necessary conditions: breaking one breaks the round trip for some input/configuration. " + TB, ref="DESIGN.md §3 C11"),
  "C12": dict(tech="who-may-call scan + value-flow / bounds analysis of maybeDeflate on SSA paths",
    text="The only decompressor constructor in the library is in maybeDeflate, its reader flows only into io.LimitReader(r, max+1) (max = parameter, 5 MiB when 0), only the limited reader is read, the second decode is reached only with len(out) <= max proven from path facts, both attempts call the same decoder, and every entry point routes through it with the configured / default limit. DecryptBytes returns exactly the opened / unpadded plaintext, so a compressed plaintext reaches the inflater byte for byte.",
